@@ -186,7 +186,9 @@ def build(case):
             first_obj = POP[pa]
             with NoTracing():
                 ns["obj"] = first_obj
-                p0 = probing(select("obj.meth > y", env=ns))
+                sn0 = "this" if pa == 7 else "self"
+                first_text = {None: "obj.meth > y", "ctx": f"obj.meth({sn0}) > y", "focus": f"obj.meth > {sn0}"}[p.get("named")]
+                p0 = probing(select(first_text, env=ns))
                 p0.__enter__()
                 first_obj.meth(0)
                 p0.__exit__(None, None, None)
@@ -321,6 +323,13 @@ def cases(tier, seed):
                    "budget_s": 3000 if th else 200})
         cs.append({"id": f"nested_step:probed={probed}", "params": {"form": "nested_step", "ncalls": nc, "probed": probed},
                    "budget_s": 3000 if th else 200})
+    # the first of the two probes names the receiver parameter itself (as context / as focus)
+    for named in ("ctx", "focus"):
+        for probed in ((0, 7) if not th else range(10)):
+            if probed == 5:
+                continue
+            cs.append({"id": f"twice:named={named}:first={probed}", "params": {"form": "twice", "ncalls": 3, "probed": probed, "named": named},
+                       "budget_s": 3000 if th else 200})
     for focus in ("#enter", "#value", "#exit"):
         for probed in ((0, 2, 4, 7, 9) if not th else range(10)):
             cs.append({"id": f"instance:focus={focus}:probed={probed}",
